@@ -452,6 +452,173 @@ def gen_driver_cases(ctx, n: int) -> tuple[list[str], dict]:
     return cases, stats
 
 
+# ------------------------------------------------------------------ the rdflib integration's term encoder
+class _NotATerm:
+    """An object that is not an rdflib term (O_None of the specification).  Not Python's None: the writer's repeated-term list uses
+    None for 'nothing yet', so a None handed in as a term compares equal to that marker -- outside the model."""
+
+
+NOT_A_TERM = _NotATerm()
+
+
+def robj_lit(x) -> str:
+    import rdflib
+
+    def o(v):
+        return "None" if v is None else f"(Some {nlist(str(v))})"
+    if isinstance(x, rdflib.Literal):
+        return f"(@O_Literal SN {nlist(str(x))} {o(x.language)} {o(x.datatype)})"
+    if isinstance(x, rdflib.URIRef):
+        return f"(@O_URIRef SN {nlist(str(x))})"
+    if isinstance(x, rdflib.BNode):
+        return f"(@O_BNode SN {nlist(str(x))})"
+    if x is NOT_A_TERM:
+        return "(@O_None SN)"
+    if type(x) is str:
+        return f"(@O_str SN {nlist(x)})"
+    raise ValueError(f"object {type(x)}")
+
+
+def rterm(r: random.Random, g, graph: bool = False):
+    """An rdflib term (also: language tags in several cases, empty strings, the default graph's id, None for 'not a term')."""
+    import rdflib
+    from rdflib.graph import DATASET_DEFAULT_GRAPH_ID
+
+    k = r.random()
+    if graph and k < 0.25:
+        return DATASET_DEFAULT_GRAPH_ID
+    if k < 0.45:
+        return rdflib.URIRef(g.iri()._iri)
+    if k < 0.6:
+        return rdflib.BNode(r.choice(["b0", "b1", "x", ""]))
+    if k < 0.95:
+        lex = r.choice(["a", "", "chat", "1", "é"])
+        m = r.random()
+        if m < 0.4:
+            return rdflib.Literal(lex, lang=r.choice(["en", "EN", "En", "en-GB", "en-gb", "de"]), normalize=False)
+        if m < 0.7:
+            return rdflib.Literal(lex, datatype=rdflib.URIRef(r.choice(["http://www.w3.org/2001/XMLSchema#string", "http://www.w3.org/2001/XMLSchema#integer",
+                                                                       "http://e/dt", "urn:d"])), normalize=False)
+        return rdflib.Literal(lex, normalize=False)
+    return NOT_A_TERM
+
+
+def run_rwriter(quads: bool, cfg: dict, ns: list, stmts: list):
+    from pyjelly.integrations.rdflib.serialize import RDFLibTermEncoder
+    from pyjelly.options import LookupPreset, StreamParameters
+    from pyjelly.serialize.streams import QuadStream, SerializerOptions, TripleStream
+
+    frames = []
+    try:
+        preset = LookupPreset(max_names=cfg["maxn"], max_prefixes=cfg["maxp"], max_datatypes=cfg["maxd"])
+        params = StreamParameters(generalized_statements=cfg["gen"], rdf_star=cfg["star"], version=cfg["version"], delimited=cfg["delimited"],
+                                  namespace_declarations=cfg["nd"], stream_name=cfg["name"])
+        opts = SerializerOptions(flow=None, frame_size=cfg["frame_size"], logical_type=cfg["logical"], params=params, lookup_preset=preset)
+        enc = RDFLibTermEncoder(lookup_preset=preset)
+        stream = (QuadStream if quads else TripleStream)(encoder=enc, options=opts)
+        stream.enroll()
+        for a, b in ns:
+            stream.namespace_declaration(name=a, iri=b)
+    except Exception as e:  # noqa: BLE001
+        return [], type(e).__name__
+    for st in stmts:
+        try:
+            fr = stream.quad(st) if quads else stream.triple(st)
+        except Exception as e:  # noqa: BLE001
+            return frames, type(e).__name__
+        if fr:
+            frames.append(fr)
+    try:
+        last = stream.flow.to_stream_frame()
+    except Exception as e:  # noqa: BLE001
+        return frames, type(e).__name__
+    if last:
+        frames.append(last)
+    return frames, None
+
+
+def gen_rdflib_cases(ctx, n: int) -> tuple[list[str], dict]:
+    """(1) the specification of rdflib's objects against the real ones: isinstance, str, == (pairs incl. equal strings of different
+    classes, language tags that differ in case only, the default graph's id); (2) the writer chain with RDFLibTermEncoder."""
+    import gen as genmod
+    from rdflib.graph import DATASET_DEFAULT_GRAPH_ID
+    import rdflib
+
+    r = ctx.rng
+    cases: list[str] = []
+    stats = {"object_pairs": 0, "equal_pairs": 0, "case_only_pairs": 0, "streams": 0, "frames": 0, "exceptions": {}, "skipped": 0}
+    g = genmod.Gen(r, nprefix=2, nname=3, ndt=2)
+    b = lambda x: "true" if x else "false"  # noqa: E731
+    for _ in range(3 * n):
+        x = rterm(r, g, graph=True)
+        y = r.choice([x, rterm(r, g, graph=True), DATASET_DEFAULT_GRAPH_ID])
+        if isinstance(x, rdflib.Literal) and x.language and r.random() < 0.5:
+            y = rdflib.Literal(str(x), lang=r.choice([x.language.upper(), x.language.lower(), x.language]), normalize=False)
+            stats["case_only_pairs"] += 1
+        if x is NOT_A_TERM:
+            x = r.choice([NOT_A_TERM, "plain str"])
+        eq = bool(x == y)
+        sx = "None" if x is NOT_A_TERM else f"(Some {nlist(str(x))})"
+        cases.append(f"txr_obs {robj_lit(x)} {robj_lit(y)} = (({b(isinstance(x, rdflib.URIRef))}, {b(isinstance(x, rdflib.BNode))}, {b(isinstance(x, rdflib.Literal))}), {sx}, {b(eq)})")
+        stats["object_pairs"] += 1
+        stats["equal_pairs"] += eq
+    oo = "[" + "; ".join(f'("{a}"%string, "{c}"%string)' for a, c in oneof_members()) + "]"
+    tries = 0
+    while stats["streams"] < n and tries < 6 * n:
+        tries += 1
+        quads = r.random() < 0.5
+        g = genmod.Gen(r, nprefix=r.randint(1, 4), nname=r.randint(2, 5), ndt=r.randint(1, 3))
+        stmts, prev = [], None
+        for _ in range(r.choice([1, 2, 4, 8])):
+            cur = []
+            for i in range(4 if quads else 3):
+                if prev is not None and r.random() < 0.5:
+                    t = prev[i]
+                    if isinstance(t, rdflib.Literal) and t.language and r.random() < 0.4:  # the same literal up to the case of its tag
+                        t = rdflib.Literal(str(t), lang=t.language.swapcase(), normalize=False)
+                    cur.append(t)
+                else:
+                    cur.append(rterm(r, g, graph=(i == 3)))
+            if r.random() < 0.05:
+                cur = cur[:-1]  # a short statement
+            stmts.append(cur)
+            prev = cur if len(cur) == (4 if quads else 3) else prev
+        odd = r.random() < 0.15
+        cfg = {
+            "maxn": r.choice([8, 4097, 7]) if odd else r.choice([16, 4000]),
+            "maxp": r.choice([1, 5000, 0]) if odd else r.choice([0, 4, 150]),
+            "maxd": r.choice([0, 1, 5000]) if odd else r.choice([3, 32]),
+            "gen": r.random() < 0.5, "star": r.random() < 0.5, "version": r.choice([0, 1, 2]), "delimited": r.random() < 0.7,
+            "nd": r.random() < 0.4, "name": r.choice(["", "s"]),
+            "frame_size": r.choice([1, 2, 3, 250]),
+            "logical": r.choice([0, 2, 4] if quads else [0, 1, 3]),
+        }
+        ns = g.namespaces(r.randint(0, 2)) if cfg["nd"] else []
+        frames, exc = run_rwriter(quads, cfg, ns, [list(s) for s in stmts])
+        if exc is not None and exc not in EXNS:
+            stats["skipped"] += 1
+            continue
+        st_lit = "[" + "; ".join("[" + "; ".join(robj_lit(t) for t in s) + "]" for s in stmts) + "]"
+        ns_lit = "[" + "; ".join(f"({nlist(a)}, {nlist(c)})" for a, c in ns) + "]"
+        lhs = (f"txr_writer {oo} {b(quads)} ({cfg['maxn']}) ({cfg['maxp']}) ({cfg['maxd']}) {b(cfg['gen'])} {b(cfg['star'])} ({cfg['version']}) "
+               f"{b(cfg['delimited'])} {b(cfg['nd'])} {nlist(cfg['name'])} ({cfg['frame_size']}) ({cfg['logical']}) {ns_lit} {st_lit}")
+        rhs = "([" + "; ".join(pb_canon_lit(f) for f in frames) + "], " + ("None" if exc is None else f"Some {exc}") + ")"
+        cases.append(f"{lhs} = {rhs}")
+        stats["streams"] += 1
+        stats["frames"] += len(frames)
+        if exc:
+            stats["exceptions"][exc] = stats["exceptions"].get(exc, 0) + 1
+    return cases, stats
+
+
+def coq_file_rdflib(cases: list[str]) -> str:
+    body = ["From PJ.Model Require Import Base.", "From PJ.Tie Require Import PyPrims StrN TxRun TxRunRdflib.", "From PJ.Gen Require Import RdflibSerializeGen.",
+            "Local Open Scope Z_scope."]
+    for i, c in enumerate(cases):
+        body.append(f"Example txr{i} : {c}.\nProof. vm_compute. reflexivity. Qed.")
+    return "\n".join(body) + "\n"
+
+
 def coq_file(cases: list[str]) -> str:
     body = ["From PJ.Model Require Import Base.", "From PJ.Tie Require Import PyPrims StrN TxRun.", "From PJ.Gen Require Import GenericSinkGen.",
             "Local Open Scope Z_scope."]
